@@ -1,7 +1,90 @@
+(** C35 — Bitswap per-peer want-list converges to the client's current wants.
+    ONLY the property theorems, each closed by [exact] of a lemma of
+    [proofs/P_C35.v], with [Print Assumptions] beneath it.
+    Model: [model/M_C35.v] — the message queue as a transition system whose steps are
+    the code's critical sections; [fixed_flags] = the protocol the property demands,
+    [code_flags] = what messagequeue.go does today (two defect switches on). *)
 From Coq Require Import List ZArith Bool NArith.
 From V Require Import lib.Verdict model.M_C35 proofs.P_C35.
 Import ListNotations.
 Open Scope Z_scope.
-Theorem C35_placeholder : idleb init = true.
-Proof. reflexivity. Qed.
-Print Assumptions C35_placeholder.
+
+(** The coupling invariant between the client's four lists, the queued cancels, the
+    peer's want-list and what the client wants holds after EVERY sequence of atomic
+    steps: any interleaving of want-block / want-have / broadcast / cancel requests
+    with sends whose candidate lists are arbitrary (any snapshot, however stale, cut
+    off by any message size limit), purges (no HAVE support) and rebroadcasts of any
+    subset.  With or without HAVE support. *)
+Theorem C35_inv : forall sh xs, Forall (step_ok) xs -> Inv sh (run fixed_flags sh init xs).
+Proof. intros sh xs Hok. apply run_inv; [exact Hok | apply inv_init]. Qed.
+Print Assumptions C35_inv.
+
+(** In any idle state reached that way (nothing pending, no cancel queued) the peer's
+    list is converged: every CID the peer holds is wanted, every want that can be
+    expressed to this peer is held by it (all wants with HAVE support; want-blocks and
+    broadcast wants without), and a wanted block is a want-block at the peer.  A
+    cancelled want is never left active, a current want is never left unsent. *)
+Theorem C35_idle_converged : forall sh xs univ,
+  Forall step_ok xs -> idle (run fixed_flags sh init xs) ->
+  convergedb sh univ (run fixed_flags sh init xs) = true.
+Proof. intros sh xs univ Hok Hidle. apply idle_converged; [apply run_inv; [exact Hok | apply inv_init] | exact Hidle]. Qed.
+Print Assumptions C35_idle_converged.
+
+(** One sendMessage with no size limit reaches idle from ANY state (either model).
+    [C35_progress_partial]: the full statement — under every size limit of at least one
+    entry, finitely many sends reach idle (each strictly decreases |pending|+|cancels|) —
+    is not proved; the harness drives the real queue to idle under limits from one
+    entry up on every schedule. *)
+Theorem C35_progress_partial : forall fl sh s, idleb (flush fl sh s) = true.
+Proof. exact flush_idle. Qed.
+Print Assumptions C35_progress_partial.
+
+(** ---------- the current code ---------- *)
+(** finding C35-1: want c; send; cancel c; want c; cancel c; send (the last send may well
+    carry the cancel that was snapshotted before "want c; cancel c" ran inside the
+    unlocked window — the schedule of DESIGN §4.3): idle, and the peer keeps c. *)
+Definition w_forget : list step :=
+  [PWant 0 TBlock; SSend [] [(0, (2147483647, TBlock))] []; PCancel 0; PWant 0 TBlock; PCancel 0; SSend [0] [] []].
+Theorem C35_forget_refuted : exists xs, Forall step_ok xs /\
+  let s := run code_flags true init xs in
+  idleb s = true /\ convergedb true [0] s = false /\ zhas 0 (r_wl s) = true /\ wanted s 0 = false.
+Proof. exists w_forget. split; [repeat constructor; left; reflexivity | vm_compute; repeat split; reflexivity]. Qed.
+Print Assumptions C35_forget_refuted.
+
+(** finding C35-1, second form: rebroadcast moved the want back to pending, the cancel
+    arrives before the re-send *)
+Definition w_refresh : list step :=
+  [PWant 0 TBlock; SSend [] [(0, (2147483647, TBlock))] []; SRefresh [0] []; PCancel 0; SSend [] [(0, (2147483647, TBlock))] []].
+Theorem C35_refresh_refuted : exists xs, Forall step_ok xs /\
+  let s := run code_flags true init xs in
+  idleb s = true /\ convergedb true [0] s = false /\ zhas 0 (r_wl s) = true /\ wanted s 0 = false.
+Proof. exists w_refresh. split; [repeat constructor; left; reflexivity | vm_compute; repeat split; reflexivity]. Qed.
+Print Assumptions C35_refresh_refuted.
+
+(** finding C35-2: peer want-have and broadcast want-have of one CID are snapshotted;
+    cancel + re-broadcast run inside the window; the entry is removed from the message
+    although the broadcast list marks it sent: idle, wanted, and the peer never got it. *)
+Definition w_merge : list step :=
+  [PWant 0 THave; PBcast 0; PCancel 0; PBcast 0;
+   SSend [] [(0, (2147483647, THave))] [(0, (2147483646, THave))]].
+Theorem C35_merge_refuted : exists xs, Forall step_ok xs /\
+  let s := run (mkflags false true) true init xs in
+  idleb s = true /\ convergedb true [0] s = false /\ zhas 0 (r_wl s) = false /\ wanted s 0 = true.
+Proof. exists w_merge. split; [repeat constructor; right; reflexivity | vm_compute; repeat split; reflexivity]. Qed.
+Print Assumptions C35_merge_refuted.
+
+(** the same three schedules on the fixed model converge (after the send that is then
+    still queued) — the hypotheses of the theorems above are satisfiable and bite *)
+Example C35_witnesses_fixed :
+  convergedb true [0] (flush fixed_flags true (run fixed_flags true init w_forget)) = true /\
+  convergedb true [0] (flush fixed_flags true (run fixed_flags true init w_refresh)) = true /\
+  convergedb true [0] (run fixed_flags true init w_merge) = true /\
+  idleb (run fixed_flags true init w_merge) = true.
+Proof. vm_compute. repeat split; reflexivity. Qed.
+
+Example C35_example_schedule :
+  let xs := [PWant 1 THave; PBcast 2; SSend [] [(1, (2147483647, THave))] [(2, (2147483646, THave))];
+             PWant 1 TBlock; PCancel 2; SSend [2] [(1, (2147483645, TBlock))] []] in
+  Forall step_ok xs /\ idle (run fixed_flags true init xs) /\
+  map (fun e : Z * went => (fst e, snd (snd e))) (r_wl (run fixed_flags true init xs)) = [(1, TBlock)].
+Proof. cbv zeta. split; [repeat constructor; (left; reflexivity) || (right; reflexivity) | vm_compute; repeat split; reflexivity]. Qed.
